@@ -73,7 +73,7 @@ def run(ctx):
     dspecs = cases.gen_pool_specs(ctx.rng, ctx.scale(12, 30))
     dspecs += [{"kind": "positional", "delta": 0.5},
                {"kind": "combined", "alpha": 1.0, "beta": 1.0, "delta": 1.0, "pos": None, "cat": None}]
-    for _ in range(ctx.scale(220, 1400)):
+    for _ in range(ctx.scale(220, 5000)):
         if ctx.out_of_time():
             break
         case = ac.gen_oracle_case(ctx, dspecs)
